@@ -2,7 +2,10 @@
 
 package url
 
-import "github.com/nlnwa/whatwg-url/internal/vnd"
+import (
+	"github.com/nlnwa/whatwg-url/internal/vnd"
+	model "github.com/nlnwa/whatwg-url/internal/whatwgmodel"
+)
 
 // isDottedDecimalIPv4: four dot-separated decimal numbers 0..255 without leading zeros.
 func isDottedDecimalIPv4(s string) bool {
@@ -248,7 +251,90 @@ func VerifC19CustomSchemes() {
 	verifCheckDerivedT(u.Clone(), customSchemeTable)
 }
 
+// VerifC19Addresses: address-literal hosts by value. IPv6: pieces 0-4 all 0 or all ffff, piece 5 0 or ffff, pieces
+// 6 and 7 each 0, ffff or any four-hex-digit value (symbolic; covers the IPv4-mapped ::ffff:0:0/96, IPv4-compatible,
+// all-ones, unspecified and loopback ranges), spelled with the standard's serializer or with a
+// dotted-decimal tail; IPv4: parts from 0, 7, 255. Special and non-special scheme; after parse,
+// clone, resolution and a hostname setter carrying the same literal.
+func VerifC19Addresses() {
+	var host string
+	if vnd.Pick(4) != 0 {
+		var a [8]uint16
+		if vnd.Pick(2) == 1 {
+			a[0], a[1], a[2], a[3], a[4] = 0xffff, 0xffff, 0xffff, 0xffff, 0xffff
+		}
+		if vnd.Pick(2) == 1 {
+			a[5] = 0xffff
+		}
+		anySym := false
+		for i := 6; i < 8; i++ {
+			switch vnd.Pick(3) {
+			case 1:
+				a[i] = 0xffff
+			case 2:
+				if anySym {
+					a[i] = 0x1a2b
+				} else {
+					v := vnd.U16()
+					vnd.Assume(v >= 0x1000) // four hex digits, any value
+					a[i] = v
+					anySym = true
+				}
+			}
+		}
+		host = "[" + model.SerializeIPv6(a) + "]"
+		if !anySym && vnd.Pick(2) == 1 {
+			// the same address with its last 32 bits in dotted-decimal form
+			head := "::"
+			switch {
+			case a[0] == 0 && a[5] != 0:
+				head = "::ffff:"
+			case a[0] != 0 && a[5] == 0:
+				head = "ffff:ffff:ffff:ffff:ffff:0:"
+			case a[0] != 0 && a[5] != 0:
+				head = "ffff:ffff:ffff:ffff:ffff:ffff:"
+			}
+			host = "[" + head + decimalOf(int(a[6]>>8)) + "." + decimalOf(int(a[6]&0xff)) + "." + decimalOf(int(a[7]>>8)) + "." + decimalOf(int(a[7]&0xff)) + "]"
+		}
+	} else {
+		parts := []string{"0", "7", "255"}
+		host = parts[vnd.Pick(3)] + "." + parts[vnd.Pick(3)] + "." + parts[vnd.Pick(3)] + "." + parts[vnd.Pick(3)]
+	}
+	schemes := []string{"http", "a", "file"}
+	sc := schemes[vnd.Pick(len(schemes))]
+	u, err := Parse(sc + "://" + host + "/p")
+	if err != nil {
+		vnd.Fail("an address literal in canonical spelling is rejected")
+		return
+	}
+	vnd.Cover("ipv4", u.IsIPv4())
+	vnd.Cover("ipv6", u.IsIPv6())
+	verifCheckDerived(u)
+	verifCheckDerived(u.Clone())
+	if r, rerr := u.Parse("x?y"); rerr == nil {
+		verifCheckDerived(r)
+	}
+	v, verr := Parse(sc + "://h:8/q")
+	if verr == nil {
+		v.SetHostname(host)
+		verifCheckDerived(v)
+	}
+}
+
+func decimalOf(n int) string {
+	if n == 0 {
+		return "0"
+	}
+	s := ""
+	for n > 0 {
+		s = string(rune('0'+n%10)) + s
+		n /= 10
+	}
+	return s
+}
+
 func init() {
+	verifHarnesses["VerifC19Addresses"] = VerifC19Addresses
 	verifHarnesses["VerifC19CustomSchemes"] = VerifC19CustomSchemes
 	verifHarnesses["VerifC19Parse"] = VerifC19Parse
 	verifHarnesses["VerifC19Resolve"] = VerifC19Resolve
